@@ -26,6 +26,8 @@ trap cleanup EXIT
 for sid in "$@"; do
   echo "##### seeded $sid"
   patch="/verif/seeded/$sid/patch.diff"
+  # same change with its context re-based onto a later fix: commit of /repo (identical +/- lines)
+  [ -f "/verif/seeded/$sid/patch.rebased.diff" ] && patch="/verif/seeded/$sid/patch.rebased.diff"
   [ -f "$patch" ] || patch="$sid"   # also accepts a path to a patch file
   git -C "$ISO/repo" apply "$patch" || { echo "patch does not apply"; continue; }
   fired=""
